@@ -31,9 +31,14 @@ Theorem c07_release_never_beyond_stop_point : forall c s l s' b,
   step c s (ELimit (Some l)) = Ok s' -> min_point (pool s) = Some b -> (l <= stop_point s)%Z.
 Proof.
   intros c s l s' b H Hb. cbn [step] in H. destruct (pool s) as [|p r] eqn:Ep; [discriminate Hb|].
-  destruct (option_eqb Z.eqb (Some l) (spec_limit c s)) eqn:E; [|discriminate].
-  unfold spec_limit in E. rewrite Ep in E. rewrite <- Ep in *. rewrite Hb in E. cbn in E.
-  apply Z.eqb_eq in E. subst l. apply Z.le_min_r.
+  destruct (option_eqb Z.eqb (Some l) (spec_limit c s)) eqn:E.
+  - unfold spec_limit in E. rewrite Ep in E. rewrite <- Ep in *. rewrite Hb in E. cbn in E.
+    apply Z.eqb_eq in E. subst l. apply Z.le_min_r.
+  - (* the limit already at the stop point is kept *)
+    destruct (option_eqb Z.eqb (limit s) (Some (stop_point s)) && option_eqb Z.eqb (Some l) (limit s)) eqn:E2;
+      [|discriminate].
+    apply andb_true_iff in E2. destruct E2 as [A B].
+    apply option_Z_eqb_eq in A, B. rewrite A in B. injection B as ->. apply Z.le_refl.
 Qed.
 
 Example c07_ex_off_graph_spawn_rejected :
